@@ -15,3 +15,4 @@ import Generated.GoAnsih
 import Generated.GoView
 import Generated.GoSelect
 import Generated.GoClient
+import Generated.GoListing
